@@ -474,11 +474,59 @@ class Program:
                 self.edge_sites.setdefault((c.body.id, cu), []).append(c)
                 self.closure_call_sites.setdefault(cu, []).append(c)
         self._resolve_fnptr_params()
+        self._closed_dyn_dispatch()
         self._resolve_generic_fn_params()
         self.callers = {b.id: set() for b in self.bodies}
         for a, bs in self.edges.items():
             for b in bs:
                 self.callers[b].add(a)
+
+    def _closed_dyn_dispatch(self):
+        """`table.init()` on a `&mut dyn Manager` where `Manager` is a trait of this crate that cannot be named from
+        outside (the privacy pass says so): the set of impls is closed, the call is not a callback into user code.  Its
+        targets are the impls of the types that are coerced to `dyn Manager` somewhere in the crate (rapid type analysis:
+        a type that is never turned into the trait object cannot be the receiver); every impl when a coercion starts
+        from a type this reading cannot name (a generic parameter)."""
+        closed = {}
+        for im in self.f.j.get('impls', []):
+            tr = im.get('trait')
+            if not tr or not im.get('trait_local'):
+                continue
+            closed.setdefault(tr, []).append(im)
+        closed = {tr: ims for tr, ims in closed.items() if not any(im.get('trait_reachable', True) for im in ims)}
+        if not closed:
+            return
+        coerced = {tr: set() for tr in closed}
+        unknown = set()
+        for b in self.bodies:
+            for bb, i, pl, rv in b.assigns():
+                if rv['k'] == 'cast' and 'Unsize' in (rv.get('cast') or ''):
+                    for tr in closed:
+                        if re.search(r'dyn %s\b' % re.escape(tr), rv.get('to') or ''):
+                            m = re.match(r"^(?:&(?:'\w+ )?(?:mut )?|std::boxed::Box<|std::rc::Rc<|std::sync::Arc<)(.*?)>?$", rv.get('from') or '')
+                            ty = m.group(1) if m else None
+                            if ty and any(im['self'] == ty for im in closed[tr]):
+                                coerced[tr].add(ty)
+                            else:
+                                unknown.add(tr)
+        by_impl = {}
+        for b in self.bodies:
+            if b.impl_trait:
+                by_impl.setdefault((b.impl_trait.split('<')[0], b.name.split('::')[-1]), []).append(b)
+        keep = []
+        for c in self.callback_sites:
+            tr = (c.fn.get('trait') or '').split('<')[0] if c.fn else ''
+            if not c.is_virtual or tr not in closed:
+                keep.append(c); continue
+            meth = (c.callee or '').split('::')[-1]
+            tg = [b for b in by_impl.get((tr, meth), []) if tr in unknown or (b.j.get('impl_self') or '') in coerced[tr]]
+            if not tg:
+                keep.append(c); continue
+            self.resolved_indirect[(c.body.id, c.bb)] = [t.id for t in tg]
+            for t in tg:
+                self.edges[c.body.id].add(t.id)
+                self.edge_sites.setdefault((c.body.id, t.id), []).append(c)
+        self.callback_sites = keep
 
     def _resolve_fnptr_params(self):
         """an indirect call `p(..)` where p is a plain `fn(..)` parameter of a private body and every
